@@ -68,8 +68,8 @@ fn index_provenance(cx: &mut Ctx, src: &sm::Src) {
         ("string-precision", "lettruncated=self.precision.and_then(|precision|{let(index,_)=s.char_indices().nth(precision)?;Some(TruncatedStr{inner:&s[..index],char_len:precision,})});", "format_string cuts at the byte index of the precision-th character (char_indices().nth) and announces `precision` characters"),
         ("no-truncate", "", "no String::truncate with a spec-supplied index"),
         ("separator-split", "letint_end=magnitude_str.find(&['.','e','E','%'][..]).unwrap_or(magnitude_str.len());let(magnitude_int_str,rest)=magnitude_str.split_at(int_end);", "the integer part ends at find(['.','e','E','%']) or len()"),
-        ("width-bound", "ifwidth.is_some_and(|width|width>i32::MAXasusize){returnErr(FormatSpecError::DecimalDigitsTooMany);}", "FormatSpec::parse rejects widths above i32::MAX (the padding arithmetic is i32)"),
-        ("precision-bound", "ifsize>i32::MAXasusize{returnErr(FormatSpecError::PrecisionTooBig);}", "parse_precision rejects precisions above i32::MAX"),
+        ("width-bound", "ifwidth.is_some_and(|width|(i32::MAXasusize)<width){returnErr(FormatSpecError::DecimalDigitsTooMany);}", "FormatSpec::parse rejects widths above i32::MAX (the padding arithmetic is i32)"),
+        ("precision-bound", "if(i32::MAXasusize)<size{returnErr(FormatSpecError::PrecisionTooBig);}", "parse_precision rejects precisions above i32::MAX"),
         ("num-digits", "for(index,character)intext.char_indices(){if!character.is_ascii_digit(){returnindex;}}text.len()", "get_num_digits returns a char_indices() index or len()"),
         ("fill-align", "let(maybe_align,remaining)=FormatAlign::parse(&text[char_indices[1].0..]);", "parse_fill_and_align slices at the byte index of the second character"),
     ];
@@ -162,13 +162,38 @@ fn type_tables(cx: &mut Ctx, src: &sm::Src) {
     }
     // conversion / align / sign / grouping tables
     let t = sm::tsx(&src.file);
-    let small = [
-        ("align", "'<'=>Some(FormatAlign::Left),'>'=>Some(FormatAlign::Right),'='=>Some(FormatAlign::AfterSign),'^'=>Some(FormatAlign::Center),_=>None,"),
-        ("sign", "Some('-')=>(Some(Self::Minus),chars.as_str()),Some('+')=>(Some(Self::Plus),chars.as_str()),Some(' ')=>(Some(Self::MinusOrSpace),chars.as_str()),_=>(None,text),"),
-        ("grouping", "Some('_')=>(Some(Self::Underscore),chars.as_str()),Some(',')=>(Some(Self::Comma),chars.as_str()),_=>(None,text),"),
+    let _ = t;
+    // each table is a match whose arm map (pattern -> value, in any order) equals the reference
+    let small: [(&str, Vec<(&str, &str)>); 3] = [
+        ("align", vec![("'<'", "Some(FormatAlign::Left)"), ("'>'", "Some(FormatAlign::Right)"), ("'='", "Some(FormatAlign::AfterSign)"), ("'^'", "Some(FormatAlign::Center)"), ("_", "None")]),
+        ("sign", vec![("Some('-')", "(Some(Self::Minus),chars.as_str())"), ("Some('+')", "(Some(Self::Plus),chars.as_str())"), ("Some(' ')", "(Some(Self::MinusOrSpace),chars.as_str())"), ("_", "(None,text)")]),
+        ("grouping", vec![("Some('_')", "(Some(Self::Underscore),chars.as_str())"), ("Some(',')", "(Some(Self::Comma),chars.as_str())"), ("_", "(None,text)")]),
     ];
-    for (k, frag) in small {
-        if t.contains(frag) {
+    let mut maps: Vec<std::collections::BTreeMap<String, String>> = vec![];
+    {
+        struct V<'a> {
+            out: &'a mut Vec<std::collections::BTreeMap<String, String>>,
+        }
+        impl<'a, 'ast> syn::visit::Visit<'ast> for V<'a> {
+            fn visit_expr_match(&mut self, m: &'ast syn::ExprMatch) {
+                let mut mp = std::collections::BTreeMap::new();
+                for a in &m.arms {
+                    if a.guard.is_none() {
+                        mp.insert(sm::tsc(&a.pat), sm::tsc(sm::unblock(&a.body)));
+                    }
+                }
+                if mp.len() == m.arms.len() {
+                    self.out.push(mp);
+                }
+                syn::visit::visit_expr_match(self, m);
+            }
+        }
+        use syn::visit::Visit;
+        V { out: &mut maps }.visit_file(&src.file);
+    }
+    for (k, want) in small {
+        let w: std::collections::BTreeMap<String, String> = want.iter().map(|(a, b)| (a.to_string(), b.to_string())).collect();
+        if maps.iter().any(|m| *m == w) {
             cx.ok(rule, &format!("{} table", k));
         } else {
             cx.fail(rule, &format!("{}/{}", rule, k), &src.rel, &format!("the {} character table differs from `< > = ^` / `- + space` / `_ ,`", k));
@@ -216,7 +241,7 @@ fn parse_order(cx: &mut Ctx, src: &sm::Src) {
         cx.fail(rule, &format!("{}/zero-flag", rule), &src.loc(m), "the zero flag is not `if zero && fill.is_none() { fill = '0'; align = align.or(AfterSign) }`: an explicit alignment without fill would lose the zero padding");
     }
     // parse_fill_and_align: fill only when the SECOND char is an alignment
-    if sm::tsc(&src.file).contains("ifmaybe_align.is_some(){(Some(char_indices[0].1),maybe_align,remaining)}else{let(only_align,only_align_remaining)=FormatAlign::parse(text);(None,only_align,only_align_remaining)}") {
+    if sm::tsc(&src.file).contains("matchmaybe_align{Some(_)=>{(Some(char_indices[0].1),maybe_align,remaining)},_=>{let(only_align,only_align_remaining)=FormatAlign::parse(text);(None,only_align,only_align_remaining)},}") {
         cx.ok(rule, "fill is taken only when the second character is an alignment character");
     } else {
         cx.fail(rule, &format!("{}/fill-align", rule), &src.rel, "parse_fill_and_align does not take the fill only when the second character is an alignment");
